@@ -148,6 +148,8 @@ def run(ctx):
           ("MC_Cors", "MC_Cors_nodev.cfg", dict(workers=2, expect_violation=True))]
     if q:
         mc = [m for m in mc if m[1] != "MC_Cors_repair.cfg"]
+    else:
+        mc.append(("MC_Cors", "MC_Cors_sim.cfg", dict(workers=1, simulate="num=400", depth=16, name="mc-sim", timeout=1500)))
     gen = [("CorsGen", "Gen_Cors.cfg" if q else "Gen_Cors_deep.cfg", dict(workers=6, timeout=1500)),
            ("CorsGen", "Gen_Cors_mount.cfg" if q else "Gen_Cors_mount_deep.cfg", dict(workers=6, timeout=1500)),
            ("CorsGen", "Gen_Cors_pol.cfg" if q else "Gen_Cors_pol_deep.cfg", dict(workers=4, timeout=1500)),
